@@ -168,6 +168,7 @@ class World:
         sched = S.Sched(plan["sched"], max_steps=self.MAX_STEPS)
         if trace:
             sched.trace = []
+        sched.wall_steps = [list(j) for j in plan.get("clock_jumps", [])]
         sched.adopt_main()
         net = N.Net(sched, plan.get("net"))
         ctx = Ctx(self, plan, sched, net)
